@@ -24,6 +24,7 @@ class SimTask(asyncio.Task):
         # NB: must be set before Task.__init__, which registers self in a WeakSet (hashing it)
         self._sim_seq = sim_seq
         self._sim_hash = sim_hash
+        self._sim_steps = 0
         if name is None:
             name = f"simtask-{sim_seq}"
         super().__init__(coro, loop=loop, name=name, context=context)
@@ -139,6 +140,9 @@ class SimLoop(asyncio.BaseEventLoop):
             return False
         self.handles_run += 1
         self.in_handle = True
+        owner = getattr(h._callback, "__self__", None)
+        if isinstance(owner, SimTask):
+            owner._sim_steps += 1        # (a handle whose callback is a task's step method: the task takes a step)
         try:
             h._run()
         finally:
